@@ -15,27 +15,31 @@ LEVELS = {
 
 
 class Ctx:
-    def __init__(self, repo, no_cache=False):
+    def __init__(self, repo, no_cache=False, default_cfg=None):
         self.repo = repo
         self.no_cache = no_cache
+        self.default_cfg = default_cfg or os.environ.get("FPV_DEFAULT_CFG", "dev")
         self._facts = {}
         self._cg = {}
         self._roles = {}
 
-    def facts(self, cfg="dev"):
+    def facts(self, cfg=None):
+        cfg = cfg or self.default_cfg
         if cfg not in self._facts:
             self._facts[cfg] = factsmod.load(cfg, self.repo, self.no_cache)
         return self._facts[cfg]
 
-    def cg(self, cfg="dev"):
+    def cg(self, cfg=None):
+        cfg = cfg or self.default_cfg
         if cfg not in self._cg:
             self._cg[cfg] = CallGraph(self.facts(cfg))
         return self._cg[cfg]
 
-    def reachable(self, cfg="dev"):
+    def reachable(self, cfg=None):
         return self.cg(cfg).reachable([MAIN_ROOT])
 
-    def roles(self, cfg="dev"):
+    def roles(self, cfg=None):
+        cfg = cfg or self.default_cfg
         if cfg not in self._roles:
             self._roles[cfg] = thread_roles(self.cg(cfg))
         return self._roles[cfg]
@@ -49,6 +53,58 @@ class Ctx:
             return fh.read()
 
 
+def _battery(pid):
+    """runs the mutation battery, the negative controls and the seeded changes of one property against
+    scratch copies of the tree; the result describes the checker, it does not change the verdict"""
+    import subprocess
+    import tempfile
+    with open(os.path.join(VERIF, "selftest", "mutants.json")) as fh:
+        cat = [m for m in json.load(fh)["mutants"] if pid in m["properties"]]
+    for m in cat:
+        m["properties"] = [pid]
+    sd = os.path.join(VERIF, "seeded")
+    for name in sorted(os.listdir(sd)) if os.path.isdir(sd) else []:
+        mp = os.path.join(sd, name, "meta.json")
+        pp = os.path.join(sd, name, "patch.diff")
+        if os.path.exists(mp) and os.path.exists(pp):
+            try:
+                with open(mp) as fh:
+                    meta = json.load(fh)
+            except ValueError:
+                continue
+            if meta.get("property") == pid:
+                cat.append({"id": "seed:" + name, "properties": [pid], "patch": pp, "expect": "", "seed": True})
+    tmp = tempfile.mkdtemp(prefix="fpv_battery_")
+    try:
+        cfile = os.path.join(tmp, "cat.json")
+        ofile = os.path.join(tmp, "out.json")
+        with open(cfile, "w") as fh:
+            json.dump({"mutants": cat}, fh)
+        env = dict(os.environ, FPV_NO_BATTERY="1")
+        env.pop("FPV_DEFAULT_CFG", None)
+        subprocess.run([sys.executable, os.path.join(VERIF, "selftest", "run.py"), "--catalogue", cfile, "--json", ofile, "-j", str(min(12, os.cpu_count() or 4))],
+                       stdout=subprocess.DEVNULL, stderr=subprocess.DEVNULL, env=env)
+        with open(ofile) as fh:
+            res = json.load(fh)
+    except Exception as e:  # the battery is evidence about the checker; its failure must not change the verdict
+        return {"error": repr(e)}
+    finally:
+        import shutil
+        shutil.rmtree(tmp, ignore_errors=True)
+    pos = [r for r in res if not r.get("negative") and not r["id"].startswith("seed:") and r["status"] != "skipped"]
+    neg = [r for r in res if r.get("negative")]
+    seeds = [r for r in res if r["id"].startswith("seed:")]
+    return {
+        "mutants": len(pos), "mutants_detected": sum(1 for r in pos if r["status"] == "detected"),
+        "mutants_not_detected": [r["id"] + ":" + r["status"] for r in pos if r["status"] != "detected"],
+        "negative_controls": len(neg), "negative_controls_silent": sum(1 for r in neg if r["status"] == "silent-ok"),
+        "false_alarms": [r["id"] for r in neg if r["status"] != "silent-ok"],
+        "seeded_changes": len(seeds), "seeded_detected": sum(1 for r in seeds if r["status"] == "detected"),
+        "seeded_not_detected": [r["id"] for r in seeds if r["status"] != "detected"],
+        "skipped": [r["id"] for r in res if r["status"] == "skipped"],
+    }
+
+
 def run(pid, tier, repo="/repo", no_cache=False, replay=None):
     try:
         mod = importlib.import_module("fpv.rules.%s" % pid.lower())
@@ -57,14 +113,29 @@ def run(pid, tier, repo="/repo", no_cache=False, replay=None):
         return 2
     level = LEVELS.get(pid, "other")
     rep = Report(pid, tier, level, getattr(mod, "EXPLANATION", mod.__doc__ or ""), seed=int(os.environ.get("VERIF_SEED", "0") or 0))
-    ctx = Ctx(repo, no_cache)
-    try:
-        mod.run(ctx, rep)
-    except SystemExit:
-        raise
-    except Exception as e:  # fail closed: an engine crash is reported as a violation of the check itself
-        traceback.print_exc()
-        rep.bad("engine", "engine|crash|%s" % type(e).__name__, "rule engine crashed: %r" % (e,))
+    # quick: the rules on the facts of the default build configuration (cached by tree hash).
+    # thorough: fresh extraction (no cache), the rules on BOTH build configurations (debug and
+    # release differ in cfg!(debug_assertions) branches and overflow checks), and the checker's own
+    # sensitivity battery (mutants, negative controls, seeded changes) recorded in the evidence.
+    cfgs = [None]
+    if tier == "thorough":
+        no_cache = True
+        cfgs = ["rel"] if getattr(mod, "CFG", None) == "rel" else ["dev", "rel"]
+    ctx = None
+    for cfg in cfgs:
+        ctx = Ctx(repo, no_cache, default_cfg=cfg)
+        try:
+            mod.run(ctx, rep)
+        except SystemExit:
+            raise
+        except Exception as e:  # fail closed: an engine crash is reported as a violation of the check itself
+            traceback.print_exc()
+            rep.bad("engine", "engine|crash|%s" % type(e).__name__, "rule engine crashed: %r" % (e,))
+    if tier == "thorough":
+        rep.extra["configurations"] = cfgs
+        rep.extra["facts_fresh"] = True
+        if not os.environ.get("FPV_NO_BATTERY"):
+            rep.extra["sensitivity"] = _battery(pid)
     f = ctx._facts.get("dev") or next(iter(ctx._facts.values()), None)
     if f is not None:
         rep.extra.setdefault("functions_in_facts", len(f.fns))
